@@ -397,6 +397,16 @@ class Machine:
                     env.locals[tgt['id']] = ('ptr', old[1], old[2] + d_) if isinstance(old, tuple) else old + d_
                     return old if op.startswith('post') else env.locals[tgt['id']]
                 return U
+            if op == '&' and env.texts:
+                # address of a character of a followed text (`&_buffer[1]`): a pointer into that text
+                x_ = strip(e['e'])
+                while x_.get('k') in ('paren', 'cast'):
+                    x_ = strip(x_['e'])
+                if x_.get('k') == 'call' and x_.get('op') == '[]' and x_.get('obj') is not None and len(x_.get('a', [])) == 1:
+                    tn_ = self.text_name(x_['obj'], env)
+                    i_ = self.ev(x_['a'][0], env, c) if tn_ is not None else U
+                    if tn_ is not None and env.texts[tn_] is not None and isinstance(i_, int) and 0 <= i_ <= len(env.texts[tn_]):
+                        return ('ptr', ('text', tn_), i_)
             v = self.ev(e['e'], env, c)
             if op == '*' and isinstance(v, tuple):
                 arr = self.array_of(v[1], env)
